@@ -526,4 +526,111 @@ inline MResolved m_resolve(const MUri &B, const MUri &Rin, bool identicalSchemeC
   return r;
 }
 
+
+// ===========================================================================
+// M_norm: RFC 3986 6.2.2 syntax-based normalisation as C08 states it.
+// ===========================================================================
+inline bool m_is_unreserved(int c) {
+  return (c >= 'a' && c <= 'z') || (c >= 'A' && c <= 'Z') || (c >= '0' && c <= '9') || c == '-' || c == '.' || c == '_' || c == '~';
+}
+inline int m_hexval(char c) {
+  if (c >= '0' && c <= '9') return c - '0';
+  if (c >= 'a' && c <= 'f') return c - 'a' + 10;
+  if (c >= 'A' && c <= 'F') return c - 'A' + 10;
+  return -1;
+}
+// triplet repair: decode unreserved, upper-case the hex digits of the others
+inline std::string m_fixpct(const std::string &s) {
+  std::string o;
+  for (size_t i = 0; i < s.size(); i++) {
+    if (s[i] == '%' && i + 2 < s.size() + 0 && m_hexval(s[i + 1]) >= 0 && m_hexval(s[i + 2]) >= 0) {
+      int code = m_hexval(s[i + 1]) * 16 + m_hexval(s[i + 2]);
+      if (m_is_unreserved(code)) o += (char)code;
+      else { static const char H[] = "0123456789ABCDEF"; o += '%'; o += H[code >> 4]; o += H[code & 15]; }
+      i += 2;
+    } else o += s[i];
+  }
+  return o;
+}
+inline std::string m_lower(const std::string &s) {
+  std::string o = s;
+  for (char &c : o) if (c >= 'A' && c <= 'Z') c = (char)(c + 32);
+  return o;
+}
+// reg-name: triplet repair, then every letter that is not a hex digit of a remaining triplet in lower case
+inline std::string m_norm_regname(const std::string &h) {
+  std::string f = m_fixpct(h), o;
+  for (size_t i = 0; i < f.size(); i++) {
+    if (f[i] == '%' && i + 2 < f.size()) { o += f.substr(i, 3); i += 2; }
+    else o += (f[i] >= 'A' && f[i] <= 'Z') ? (char)(f[i] + 32) : f[i];
+  }
+  return o;
+}
+struct MNormPath {
+  std::string primary;                 // expected path text
+  std::vector<std::string> also;       // other legitimate spellings in the corner shapes
+  int corner = 0;                      // 0 none, 1 relative path vanished, 2 empty first segment exposed, 3 ':' first segment exposed, 4 host-less '//' start
+  bool dotsRemoved = false;
+  bool accepts(const std::string &p) const {
+    if (p == primary) return true;
+    for (auto &a : also) if (a == p) return true;
+    return false;
+  }
+};
+inline bool m_is_relative_path_ref(const MUri &u) { return !u.hasScheme && !u.hasAuth && (u.path.empty() || u.path[0] != '/'); }
+inline MNormPath m_norm_path(const MUri &u) {
+  MNormPath r;
+  bool rel = m_is_relative_path_ref(u);
+  std::string fixed;
+  {
+    if (u.path.empty()) { r.primary = ""; return r; }
+    bool rooted = u.path[0] == '/';
+    std::vector<std::string> segs = split_slash(rooted ? u.path.substr(1) : u.path);
+    for (auto &sg : segs) sg = m_fixpct(sg);
+    fixed = (rooted ? "/" : "") + join_slash(segs);
+  }
+  std::string nd = m_remove_dots(fixed, rel);
+  r.dotsRemoved = nd != fixed;
+  r.primary = nd;
+  if (u.hasAuth) return r;
+  // guard shapes: dot removal must not let the path be read as something else
+  bool rooted = !nd.empty() && nd[0] == '/';
+  if (rel) {
+    if (nd.empty() && !fixed.empty()) { r.corner = 1; r.primary = ""; r.also = {".", "./"}; return r; }
+    std::vector<std::string> sg = split_slash(nd);
+    std::vector<std::string> osg = split_slash(fixed);
+    if (!nd.empty() && sg[0].empty()) { r.corner = 2; r.primary = "./" + nd; r.also = {}; return r; }
+    if (!nd.empty() && sg[0].find(':') != std::string::npos) {
+      r.corner = 3; r.primary = "./" + nd;
+      return r;
+    }
+    return r;
+  }
+  if (nd.compare(0, 2, "//") == 0) {
+    r.corner = 4;
+    r.primary = rooted && fixed[0] == '/' ? "/." + nd : "./" + nd;
+    r.also = {"/." + nd, "./" + nd};
+    return r;
+  }
+  return r;
+}
+enum { M_SCHEME = 1, M_USER = 2, M_HOST = 4, M_PATH = 8, M_QUERY = 16, M_FRAG = 32 };
+struct MNormed { MUri u; MNormPath path; };
+inline MNormed m_normalize(const MUri &in, unsigned mask) {
+  MNormed r;
+  MUri &u = r.u;
+  u = in;
+  if ((mask & M_SCHEME) && u.hasScheme) u.scheme = m_lower(u.scheme);
+  if ((mask & M_USER) && u.hasAuth && u.hasUser) u.user = m_fixpct(u.user);
+  if ((mask & M_HOST) && u.hasAuth) {
+    if (u.hostKind == HK_FUT) u.host = m_lower(u.host);
+    else if (u.hostKind == HK_REG) u.host = m_norm_regname(u.host);
+  }
+  if (mask & M_PATH) { r.path = m_norm_path(in); u.path = r.path.primary; }
+  else { r.path.primary = in.path; }
+  if ((mask & M_QUERY) && u.hasQuery) u.query = m_fixpct(u.query);
+  if ((mask & M_FRAG) && u.hasFrag) u.frag = m_fixpct(u.frag);
+  return r;
+}
+
 }  // namespace vf
